@@ -23,17 +23,17 @@ var longLived = map[string]bool{
 	"netpol/eval/internal/k8s.PodExposureInfo": true, "netpol/eval/internal/k8s.PolicyExposureWithoutSelectors": true,
 	"netpol/eval/internal/k8s.AdminNetworkPolicy": true, "netpol/eval/internal/k8s.BaselineAdminNetworkPolicy": true,
 	"netpol/connlist/internal/ingressanalyzer.IngressAnalyzer": true,
-	"netpol/connlist.ConnlistAnalyzer": true, "netpol/diff.DiffAnalyzer": true,
+	"netpol/connlist.ConnlistAnalyzer":                         true, "netpol/diff.DiffAnalyzer": true,
 }
 
 // allowed: "function key | Type.field" -> reason
 var queryWriteAllowed = map[string]string{
-	"netpol/eval.(*evalCache).hasConnectionResult | evalCache.cacheHitsCount": "debug counter, never read by the analysis",
-	"netpol/eval.(*evalCache).clear | evalCache.ownerToPods":                  "the result cache's own bookkeeping; invalidation discipline is rule E4a",
-	"netpol/eval.(*PolicyEngine).insertNamespace | PolicyEngine.namespacesMap": "reached from getPeer through resolveSingleMissingNamespace: inserts the default namespace object for a pod whose Namespace manifest is missing, exactly what the bulk loader does; idempotent and followed by a cache clear (E4a)",
-	"netpol/eval/internal/k8s.(*Pod).UpdatePodXgressProtectedFlag | PodExposureInfo.IsProtected": "exposure analysis: monotone flag (only ever set to true), set from the policies selecting the pod, independent of the other peer (C06-c)",
+	"netpol/eval.(*evalCache).hasConnectionResult | evalCache.cacheHitsCount":                                            "debug counter, never read by the analysis",
+	"netpol/eval.(*evalCache).clear | evalCache.ownerToPods":                                                             "the result cache's own bookkeeping; invalidation discipline is rule E4a",
+	"netpol/eval.(*PolicyEngine).insertNamespace | PolicyEngine.namespacesMap":                                           "reached from getPeer through resolveSingleMissingNamespace: inserts the default namespace object for a pod whose Namespace manifest is missing, exactly what the bulk loader does; idempotent and followed by a cache clear (E4a)",
+	"netpol/eval/internal/k8s.(*Pod).UpdatePodXgressProtectedFlag | PodExposureInfo.IsProtected":                         "exposure analysis: monotone flag (only ever set to true), set from the policies selecting the pod, independent of the other peer (C06-c)",
 	"netpol/eval.(*PolicyEngine).checkConsistentLabelsForPodsOfSameOwner | PolicyEngine.podOwnersToRepresentativePodMap": "remembers the first pod seen per (namespace, owner) only to report inconsistent labels; all candidates are equivalent unless the error is returned (C19)",
-	"netpol/eval.(*PolicyEngine).AddPodByNameAndNamespace | PolicyEngine.podsMap": "adds the fake ingress-controller pod once per list run (not cached: no owner); not reachable from CheckIfAllowed",
+	"netpol/eval.(*PolicyEngine).AddPodByNameAndNamespace | PolicyEngine.podsMap":                                        "adds the fake ingress-controller pod once per list run (not cached: no owner); not reachable from CheckIfAllowed",
 }
 
 // QueryEntries are the read-only API entries of the engine and the ingress analyzer.
